@@ -50,6 +50,49 @@ except Exception:
     pass
 
 
+class _SansIO:
+    """the SOCKS state machine used without a protocol object (no on_data): whoever owns the wire drains what the machine wants
+    written with send_data(); `sync` is what an in-memory wire answers from inside that drain, before send_data() has returned"""
+
+    def __init__(self, impl, req, host, port, fac):
+        from txtorcon.socks import _SocksMachine
+        self.impl = impl
+        self.fac = fac
+        self.transport = None
+        self.sync = None
+        self.m = _SocksMachine(req, host, port=port, on_disconnect=lambda msg: self.transport.loseConnection(),
+                               create_connection=self.create_connection)
+
+    def create_connection(self, addr, port):
+        sender = self.fac.buildProtocol(None)
+        sender.makeConnection(self.transport)
+        return sender
+
+    def drain(self):
+        def wire(data):
+            self.transport.write(data)
+            if self.sync is not None:
+                answer, self.sync = self.sync, None
+                self.m.feed_data(answer)
+        self.m.send_data(wire)
+
+    def makeConnection(self, transport):
+        self.transport = transport
+        self.m.connection()
+        self.drain()
+
+    def dataReceived(self, data):
+        self.m.feed_data(data)
+        self.drain()
+
+    def connectionLost(self, reason):
+        from txtorcon.socks import SocksError
+        self.m.disconnected(SocksError(reason))
+
+    def when_done(self):
+        return self.m.when_done()
+
+
 class Impl:
     def __init__(self, req, host, port, entry='factory', falsy_app=False):
         """entry: 'factory' (the SOCKS protocol factory itself), 'socks-endpoint' (TorSocksEndpoint.connect), 'client-endpoint'
@@ -87,6 +130,8 @@ class Impl:
         if entry == 'factory':
             self.sf = _TorSocksFactory(host, port, req, fac)
             self.proto = self.sf.buildProtocol(None)
+        elif entry == 'machine':
+            self.proto = _SansIO(self, req, host, port, fac)
         else:
             from twisted.internet.testing import MemoryReactorClock
             fake = _FakeProxyEndpoint(self)
